@@ -214,9 +214,11 @@ impl fmt::Display for ESpec {
                     (Some(l), Some(v), None) => write!(f, ":{{{l},{v}}}"),
                     (Some(l), None, Some(wb)) => write!(f, ":{{{l},{wb}}}"),
                     (Some(l), Some(v), Some(wb)) => write!(f, ":{{{l},{v},{wb}}}"),
-                    (None, Some(v), None) => write!(f, ":{{{v}}}"),
-                    (None, Some(v), Some(wb)) => write!(f, ":{{{v},{wb}}}"),
-                    (None, None, Some(wb)) => write!(f, ":{{{wb}}}"),
+                    // Without a level the parser only reaches the variant / window
+                    // bits through the leading comma (`z:{,mpq}`, `z:{,15}`).
+                    (None, Some(v), None) => write!(f, ":{{,{v}}}"),
+                    (None, Some(v), Some(wb)) => write!(f, ":{{,{v},{wb}}}"),
+                    (None, None, Some(wb)) => write!(f, ":{{,{wb}}}"),
                 }
             }
 
